@@ -6,7 +6,7 @@ from symx import tracegen as TG
 ID = "C07"
 MODULES = ["hta.trace_analysis"]
 MUST_NOT_RAISE = True
-BUDGET_S = {"quick": 420, "thorough": 3000}
+BUDGET_S = {"quick": 420, "thorough": 1200}
 BOUNDS = {
     "quick": "1 rank; 1..3 device activities, every class assignment over {computation, communication, memory} "
              "with >= 1 communication kernel; ts,dur symbolic Int in [0,2^40]; one host operator with symbolic span",
